@@ -309,7 +309,8 @@ def path(eng, acc, task):
             raise runner.HarnessError(kind)
     except DeadPath:
         raise
-    except (AssertionError, ValueError, IndexError, KeyError, TypeError, ZeroDivisionError) as e:
+    except Exception as e:
+        reraise_internal(e)
         import traceback
         tb = traceback.extract_tb(e.__traceback__)[-1]
         candidate(eng, acc, task, 'operation', f'operation:{kind}:raises:{type(e).__name__}@{tb.name}', repr(e), inputs)
